@@ -170,7 +170,10 @@ def opOffs : RM Res := do
     let want := (cands.filter (fun (_, comp, col, _, _) => comp && !col)).map (fun (c, _, _, _, _) => c)
     let colliding := offered.find? (fun o => cands.any (fun (c, _, col, _, _) => bitEqJ6 c o && col))
     let withheld := want.find? (fun w => !(offered.any (bitEqJ6 w)))
-    let preds := [P "C14.nothing_colliding" (amb || colliding.isNone, s!"offered {colliding.map showJ6} is reported colliding by the full check"),
+    -- limits as the case line states them (the model's own constraint object), not as the library object reports them
+    let outside := offered.find? (fun o => match k.constraints with | some cc => !cc.compliant o | none => false)
+    let preds := [P "C14.within_limits" (outside.isNone, s!"offered {outside.map showJ6} is outside the joint limits of the robot"),
+                  P "C14.nothing_colliding" (amb || colliding.isNone, s!"offered {colliding.map showJ6} is reported colliding by the full check"),
                   P "C14.nothing_withheld" (amb || withheld.isNone, s!"{withheld.map showJ6} is legal and free but not offered"),
                   P "C14.exact" (amb || closeList bitEqJ6 offered want, s!"offered {offered.length} expected {want.length}")]
     pure { corr := if ok then "OK" else "MISMATCH",
